@@ -126,9 +126,11 @@ pub fn c33_async_case(src: &mut Src, obs: &mut Obs) -> CaseResult {
             return Err(Failure::new("registering an interface does not complete"));
         }
     }
-    // let the object server's dispatch task start (a call taken in before it first ran is lost: the
-    // known finding of C30, not what is examined here)
-    let _ = sched.run(&mut || sch.next(), 400_000, &mut |_| false);
+    // (the first operation may start before the object server's dispatch task first ran: calls taken
+    // in by then must not be lost — C30's clause, repaired in /repo and exercised here as well)
+    if src.bool() {
+        let _ = sched.run(&mut || sch.next(), 400_000, &mut |_| false);
+    }
     let mut models: Vec<Vec<RVal>> = regs.iter().map(|i| ifs[*i].props.iter().map(|p| (p.init)()).collect()).collect();
     let nops = 2 + src.below(5);
     let mut history: Vec<String> = vec![];
@@ -214,10 +216,10 @@ pub fn c33_blocking_case(src: &mut Src, obs: &mut Obs) -> CaseResult {
     }
     // both ends have to be built concurrently (they shake hands)
     let g2 = guid.clone();
-    // (an interface given to the builder starts the object server before the connection takes in
-    // anything: the way the library's documentation recommends, and free of the on-demand start-up
-    // race that is C30's known finding)
-    let srv = std::thread::spawn(move || zbus::blocking::connection::Builder::unix_stream(s0).server(g2).and_then(|b| b.p2p().serve_at("/warmup", Warmup)).and_then(|b| b.build()));
+    // (half of the cases give an interface to the builder, which starts the object server before the
+    // connection takes in anything; the other half create it on demand right before the first call)
+    let warm = src.bool();
+    let srv = std::thread::spawn(move || zbus::blocking::connection::Builder::unix_stream(s0).server(g2).and_then(|b| if warm { b.p2p().serve_at("/warmup", Warmup) } else { Ok(b.p2p()) }).and_then(|b| b.build()));
     let client = zbus::blocking::connection::Builder::unix_stream(s1).p2p().method_timeout(std::time::Duration::from_secs(20)).build();
     let server = srv.join().map_err(|_| Failure::new("harness: server thread"))?;
     let (server, client) = match (server, client) {
